@@ -31,7 +31,10 @@ impl MatrixConnector {
         let reader = BufReader::new(rdr);
         let mut lines = reader.lines();
 
-        let (num_right, num_left) = Self::parse_header(&lines.next().unwrap()?)?;
+        let header = lines.next().ok_or_else(|| {
+            VibratoError::invalid_format("matrix.def", "The header is missing.")
+        })??;
+        let (num_right, num_left) = Self::parse_header(&header)?;
         let mut data = vec![0; num_right * num_left];
 
         for line in lines {
